@@ -86,6 +86,21 @@ func c02Consumption(c *Ctx, p *Prog, pi *parserInfo) {
 		}
 		// fixed number of reads
 		k := len(sites)
+		// bytes a parser removes without a decoder's say-so were recognised as something: an
+		// event is appended on the same path (dropping input silently is not a parser's business)
+		{
+			withEvent := false
+			for _, e := range pi.effects {
+				if st, ok := e.(*ssa.Store); ok && st.Addr == ssa.Value(pi.evsPrm) {
+					if instrDominates(e, sites[0]) || (e.Block() == b) || reachableAfter(sites[len(sites)-1], e) && e.Block().Dominates(b) {
+						withEvent = true
+					}
+				}
+			}
+			if !withEvent {
+				c.Fail("C02-R9", key+":with-event", pos, fmt.Sprintf("%d byte(s) are removed from the input on a path that delivers no event and asks no decoder", k))
+			}
+		}
 		scanHdr := enclosingScanLoop(b, loops, input)
 		if scanHdr == nil {
 			// outside any scan loop: only constant indices below k may have been examined
@@ -336,7 +351,48 @@ func classifyConsumeLoop(h *ssa.BasicBlock, body map[*ssa.BasicBlock]bool, input
 				if cmp.Op == token.GTR && z == 0 {
 					// runs init times: init must be Transform's nSrc
 					if isTransformNSrc(init, 0) {
-						return "decoder", "reads as many bytes as the decoder reports consumed (nSrc)"
+						// progress: the count is used only where the decoder produced output (a decoder that
+						// produced something consumed something); an ignored nDst can mean nSrc == 0, and a
+						// parser that answers 'complete' without consuming makes the collect loop spin
+						var srcs []ssa.Value
+						var collect func(v ssa.Value)
+						collect = func(v ssa.Value) {
+							switch x := v.(type) {
+							case *ssa.Extract:
+								srcs = append(srcs, x.Tuple)
+							case *ssa.Phi:
+								for _, e := range x.Edges {
+									collect(e)
+								}
+							}
+						}
+						for _, e := range inits {
+							collect(e)
+						}
+						produced := len(srcs) > 0
+						for _, src := range srcs {
+							okSrc := false
+							for _, g := range rawGuardsAt(h) {
+								bo, ok := g.Cond.(*ssa.BinOp)
+								if !ok {
+									continue
+								}
+								ex, ok := bo.X.(*ssa.Extract)
+								if !ok || ex.Index != 0 || ex.Tuple != src {
+									continue
+								}
+								if k, ok := constInt(bo.Y); ok && k == 0 && ((bo.Op == token.NEQ && g.Positive) || (bo.Op == token.EQL && !g.Positive) || (bo.Op == token.GTR && g.Positive)) {
+									okSrc = true
+								}
+							}
+							if !okSrc {
+								produced = false
+							}
+						}
+						if !produced {
+							return "", "the decoder's consumed count is used without checking that it produced output (the count may be zero: 'complete' without progress)"
+						}
+						return "decoder", "reads as many bytes as the decoder reports consumed (nSrc), where it produced output"
 					}
 					if isRangeIndexOver(init, input) {
 						return "", "countdown `> 0` from the scan index reads one byte fewer than the match"
